@@ -1,6 +1,7 @@
 import ScVerif.C06.Props
 import ScVerif.C06.Opts
 import ScVerif.C06.SetLemmas
+import ScVerif.C06.OptsLemmas
 /-!
 # C06 — read-option lists and mask normalisation
 
@@ -223,6 +224,31 @@ theorem C06_read_paths_refuses_continuation (S : Schema) (ty t : Nat) (pre : Pat
   refine ⟨by simpa [validate] using hi, fun opts fs hm => ?_⟩
   have hc : computeReadConfig S ty opts = none := (C06_options_panic_iff S ty opts).2 ⟨ps, hm, hi⟩
   exact ⟨hc, by simp [readWith, hc]⟩
+
+/-- **C06_validate_iff_stops_at_reachable_field.**  The complete description of what validation
+(`ResponseFilter.Validate`, and hence `WithReadPaths`, which panics exactly on the rest) accepts, for
+every schema and mask: every path consists of singular-message fields leading somewhere, followed by
+ONE more field of the message reached — of any kind, a map, a repeated field, a scalar — and nothing
+after it. -/
+theorem C06_validate_iff_stops_at_reachable_field (S : Schema) (ty : Nat) (ps : List Path) :
+    (validate S ty (some ps) = true ↔
+      ∀ p ∈ ps, ∃ pre seg t fd, p = pre ++ [seg] ∧ Leads S ty pre t ∧ S.field t seg = some fd)
+    ∧ (validate S ty (some ps) = true ↔ computeReadConfig S ty [.readPaths ps] ≠ none) := by
+  refine ⟨?_, ?_⟩
+  · simp only [validate, isValid, List.all_eq_true]
+    constructor
+    · intro h p hp
+      exact (goodPath_iff_leads S ty p).1 ((validPath_iff S ty p).1 (h p hp))
+    · intro h p hp
+      exact (validPath_iff S ty p).2 ((goodPath_iff_leads S ty p).2 (h p hp))
+  · rw [Ne, C06_options_panic_iff]
+    simp only [validate, List.mem_singleton, ReadOpt.readPaths.injEq]
+    constructor
+    · rintro h ⟨qs, rfl, hq⟩; rw [h] at hq; cases hq
+    · intro h
+      cases hv : isValid S ty ps with
+      | true => rfl
+      | false => exact absurd ⟨ps, rfl, hv⟩ h
 
 /-! ## Non-vacuity -/
 
